@@ -1,8 +1,8 @@
 SPECIFICATION Spec
-CONSTANT WithUnkillable = FALSE
-CONSTANT Fix_BoundFinalWait = TRUE
+CONSTANT WithUnkillable = TRUE
+CONSTANT Fix_BoundFinalWait = FALSE
 CONSTANT WithLinger = FALSE
-CONSTANT Fix_HardExit = FALSE
+CONSTANT Fix_HardExit = TRUE
 CONSTANT KillOnTimeout = TRUE
 INVARIANT WorkerGoneInTime
 INVARIANT ExpectedRung
